@@ -29,6 +29,8 @@ CARRIERS = [
     ("z80", "ld a, ({X})", False, dict(set=[], lt=65536, short=3, long=3), False),
     # with -optimize an index of 0 becomes @Rn (2 bytes instead of 4)
     ("msp430", "mov.w {X}(r4), r5", False, dict(set=[0], lt=0, short=2, long=4), False),
+    # the constant generator of PUSH (#4 and #8 are subject to the CPU4 erratum, .msp430_cpu4)
+    ("msp430", "push #{X}", False, dict(set=[0, 1, 2, 4, 8, -1], lt=0, short=2, long=4), False),
 ]
 # carriers (by index) assembled with the -optimize option
 OPTIMIZE = {11}
@@ -46,6 +48,8 @@ def render(prog, cpu, tmpl):
             out.append("  " + tmpl.replace("{X}", str(r["c"]) if "c" in r else r["s"]))
         elif k == "set":
             out.append(".set %s = %d" % (s["n"], s["v"]))
+        elif k == "mode":
+            out.append("." + s["d"])
         elif k == "scope":
             out.append(".scope")
         elif k == "ends":
